@@ -26,12 +26,14 @@ Definition T_CNT : N := 83. Definition T_TOK : N := 98.   Definition T_INFACE : 
 Definition tlv (typ : N) (v : bytes) : bytes := tl_enc typ ++ tl_enc (lenN v) ++ v.
 Definition opt_tlv (typ : N) (o : option bytes) : bytes := match o with Some v => tlv typ v | None => [] end.
 
+Definition tok_tlv (t : bytes) : bytes := match t with [] => [] | _ => tlv T_TOK t end.
+
 (* spec.PacketEncoder on Packet{LpPacket: f}: fields in declaration order, Fragment last *)
 Definition lp_inner (f : lpf) : bytes :=
   opt_tlv T_SEQ (option_map (be 8) (f_seq f)) ++
   opt_tlv T_IDX (option_map nat_enc (f_idx f)) ++
   opt_tlv T_CNT (option_map nat_enc (f_cnt f)) ++
-  (match f_tok f with [] => [] | t => tlv T_TOK t end) ++
+  tok_tlv (f_tok f) ++
   opt_tlv T_INFACE (option_map nat_enc (f_inface f)) ++
   opt_tlv T_MARK (option_map nat_enc (f_mark f)) ++
   opt_tlv T_FRAG (f_frag f).
@@ -213,6 +215,28 @@ Definition dispatch (c : rcfg) (st : rstate) (i d : option l3i) (raw tok : bytes
     end
   end.
 
+(* the reassembly step of handleIncomingFrame: what is handed up (LUp), nothing (LDrop), or a panic *)
+Inductive lres := LDrop (s : list (N * list bytes)) | LUp (s : list (N * list bytes)) (payload : bytes) | LPanic.
+
+Definition lp_receive (reasm : bool) (s : list (N * list bytes)) (LP : lpf) (frag : bytes) : lres :=
+  match (if reasm then f_seq LP else None) with
+  | Some seq =>
+    let idx := match f_idx LP with Some x => x | None => 0 end in
+    let cnt := match f_cnt LP with Some x => x | None => 1 end in
+    let base := u64 (seq + two64 - idx) in                            (* *LP.Sequence - fragIndex, uint64 *)
+    if (idx =? 0) && (cnt =? 1) then LUp s frag                        (* bypass: only one fragment *)
+    else match reassemble s base idx cnt frag with
+         | RPanic => LPanic
+         | RNone s' => LDrop s'
+         | RDone s' frags => LUp s' (concat frags)                     (* fragment.Join() *)
+         end
+  | None =>
+    match f_cnt LP, f_idx LP with
+    | None, None => LUp s frag
+    | _, _ => LDrop s                                                  (* fragmentation fields but reassembly disabled *)
+    end
+  end.
+
 (* handleIncomingFrame on the decoded frame `dec` (= spec.ReadPacket of the frame bytes);
    inner = spec.ReadPacket applied to the (reassembled) payload *)
 Definition handle_frame (c : rcfg) (inner : bytes -> dpkt) (st : rstate) (dec : dpkt) (frame : bytes) : hres :=
@@ -223,29 +247,16 @@ Definition handle_frame (c : rcfg) (inner : bytes -> dpkt) (st : rstate) (dec : 
     match f_frag LP with
     | None => HOk st []                                               (* IDLE *)
     | Some frag =>
-      let cont (store : list (N * list bytes)) (payload : bytes) : hres :=
-        let st' := mkRs store (r_nI st) (r_nD st) in
+      match lp_receive (r_reasm c) (r_store st) LP frag with
+      | LPanic => HPanic
+      | LDrop s => HOk (mkRs s (r_nI st) (r_nD st)) []
+      | LUp s payload =>
+        let st' := mkRs s (r_nI st) (r_nD st) in
         match inner payload with
         | DErr => HOk st' []
         | DPkt i d _ =>
           dispatch c st' i d payload (f_tok LP) (f_mark LP)
                    (if r_ccf c then f_nexthop LP else None) (if r_lcp c then f_cachepol LP else None)
-        end in
-      match (if r_reasm c then f_seq LP else None) with
-      | Some seq =>
-        let idx := match f_idx LP with Some x => x | None => 0 end in
-        let cnt := match f_cnt LP with Some x => x | None => 1 end in
-        let base := u64 (seq + two64 - idx) in
-        if (idx =? 0) && (cnt =? 1) then cont (r_store st) frag
-        else match reassemble (r_store st) base idx cnt frag with
-             | RPanic => HPanic
-             | RNone s => HOk (mkRs s (r_nI st) (r_nD st)) []
-             | RDone s frags => cont s (concat frags)
-             end
-      | None =>
-        match f_cnt LP, f_idx LP with
-        | None, None => cont (r_store st) frag
-        | _, _ => HOk st []                                            (* fragmentation fields but reassembly disabled *)
         end
       end
     end
